@@ -1,5 +1,6 @@
 import ZV.Proofs.C04
 import ZV.Proofs.C04Steps
+import ZV.Proofs.C04NC
 /-!
   C04 — certificate issuance round-trips through parsing: theorems about the model of `buildExtensions`
   and of the matching arms of `parseCertificate` (`ZV.Model.C04`), which T2 ties to the Go code by comparing,
@@ -225,6 +226,52 @@ theorem ext_roundtrip_policies (ps : List (List Nat)) (v : Bytes) (h : buildPoli
 
 example : buildPolicies [[2, 23, 140, 1, 2, 1]] = some [0x30, 10, 0x30, 8, 6, 6, 0x67, 0x81, 0x0c, 1, 2, 1]
     ∧ oidOk [2, 23, 140, 1, 2, 1] = true := by decide
+
+/-! ### name constraints (byte level) -/
+
+/-- **NameConstraints round trip.**  For every template (any number of permitted / excluded e-mail, DNS, directory-name
+    and IP-range subtrees, any octets as e-mail / DNS data, critical or not) whose directory names are DER the RDN
+    decoder accepts (`rdnOK`, the parser's `asn1.Unmarshal(Value.Bytes, &rawdn)`; in the driver the C22 decoder) and whose
+    IP ranges have address and mask both of 4 or both of 16 octets: `case 30` of `parseCertificate` applied to the value
+    `buildExtensions` writes returns exactly the template's eight lists, each in order, with Min = Max = 0. -/
+theorem ext_roundtrip_name_constraints (rdnOK : Bytes → Bool) (n : NCT)
+    (hok : ∀ b ∈ n.permitted.bases ++ n.excluded.bases, b.ok rdnOK = true)
+    (hlen : (buildNC n).length < 2147483648) :
+    parseNC rdnOK (buildNC n) = .ok (n.permitted.out, n.excluded.out) := parseNC_build rdnOK n hok hlen
+
+/-- a template using all four name forms on both sides -/
+def sampleNC : NCT :=
+  ⟨true, { email := [[0x61]], dns := [[0x62], []], dir := [[0x30, 0]], ip := [([192, 0, 2, 0], [255, 255, 255, 0])] },
+         { dns := [[0x63]], ip := [([0x20, 1, 0x0d, 0xb8, 0, 0, 0, 0, 0, 0, 0, 0, 0, 0, 0, 0],
+                                   [255, 255, 255, 255, 0, 0, 0, 0, 0, 0, 0, 0, 0, 0, 0, 0])] }⟩
+
+example : (∀ b ∈ sampleNC.permitted.bases ++ sampleNC.excluded.bases, b.ok (fun d => d == [0x30, 0]) = true) ∧
+    (buildNC sampleNC).length < 2147483648 := by decide
+
+/-- D41: the value of an IP-range subtree is the TEMPLATE's address followed by the TEMPLATE's mask, as
+    `[7]` primitive inside the subtree SEQUENCE (no Min, no Max). -/
+theorem nc_ip_value (a m : Bytes) : encSubtree (.ip a m) = tlv 0x30 (tlv 0x87 (a ++ m)) := rfl
+
+/-- the IP-range domain is needed: the parser splits the octets in the middle, so a range whose address and mask have
+    different lengths that add up to 8 comes back as a DIFFERENT (address, mask) pair … -/
+example : parseNC (fun _ => true) (buildNC ⟨false, { ip := [([1, 2], [3, 4, 5, 6, 7, 8])] }, {}⟩)
+    = .ok ({ ip := [([1, 2, 3, 4], [5, 6, 7, 8], 0, 0)] }, {}) := by decide
+
+/-- … and any other total length makes `ParseCertificate` reject the certificate `CreateCertificate` produced. -/
+example : parseNC (fun _ => true) (buildNC ⟨false, {}, { ip := [([10, 0, 0], [255, 255, 255, 0])] }⟩) = .err := by decide
+
+/-- the extension is written iff one of the eight lists is non-empty (`NCT.present`, the guard of the block). -/
+theorem nc_present_iff (n : NCT) :
+    n.present = false ↔ (n.permitted = {} ∧ n.excluded = {}) := by
+  have hs : ∀ s : NCSide, s.bases.isEmpty = true ↔ s = {} := by
+    intro s
+    cases s with
+    | mk e d r i =>
+      simp only [NCSide.bases, List.isEmpty_iff, List.append_eq_nil_iff, List.map_eq_nil_iff]
+      constructor
+      · rintro ⟨⟨⟨rfl, rfl⟩, rfl⟩, rfl⟩; rfl
+      · intro h; cases h; exact ⟨⟨⟨rfl, rfl⟩, rfl⟩, rfl⟩
+  simp only [NCT.present, Bool.or_eq_false_iff, Bool.not_eq_false', hs]
 
 /-! ### the assembled extension list -/
 
